@@ -55,6 +55,32 @@ def cases(tier, seed):
             ufo["order"] = rng.sample(names, len(names))
         out.append({"cid": f"c13-{seed}-{k}", "lib": rng.choice(["ufoLib2", "defcon"]), "flavor": flavor, "ufo": ufo,
                     "kwargs": kwargs, "wantCmap": True, "skip": skip})
+    # a non-default layer compiled on its own (layerName): the skip list still comes from the argument or the FONT's lib
+    rng2 = random.Random(seed * 67867967 + 130013)
+    for k in range(12 if tier == "quick" else 150):
+        flavor = "cff" if k % 2 else "tt"
+        if flavor == "cff":
+            glyphs = gen.glyphset(rng2, kinds=["line", "cubic"], unicodes=True)
+            kwargs = {}
+        else:
+            glyphs = gen.glyphset(rng2, kinds=["line", "quad"], palette=c02.PALETTE_TT, unicodes=True)
+            kwargs = {"flattenComponents": k % 4 == 0}
+        names = sorted(glyphs)
+        skip = gen.subset(rng2, names, 0.35)
+        if len(skip) == len(names):
+            skip = skip[:-1]
+        try:
+            layer = gen.perturb_master(rng2, glyphs, palette=c02.PALETTE_TT if flavor == "tt" else gen.PALETTE, change_2x2=0.0)
+        except (RuntimeError, TypeError):
+            continue
+        ufo = {"glyphs": glyphs, "layers": {"bold": layer}, "info": {"unitsPerEm": 1000, "ascender": 800, "descender": -200}}
+        kwargs["layerName"] = "bold"
+        if k % 3 == 0:
+            kwargs["skipExportGlyphs"] = skip
+        else:
+            ufo["lib"] = {"public.skipExportGlyphs": skip}
+        out.append({"cid": f"c13-{seed}-ly{k}", "lib": rng2.choice(["ufoLib2", "defcon"]), "flavor": flavor, "ufo": ufo,
+                    "kwargs": kwargs, "wantCmap": True, "skip": skip})
     nv = 40 if tier == "quick" else 600
     for k in range(nv):
         out.append(_var_case(rng, f"c13-{seed}-v{k}", mode={1: "chain", 3: "diffbuilt", 5: "interp2"}.get(k % 8)))
